@@ -118,10 +118,30 @@ func genSchedTrace(base, idx uint64, small bool) (*SchedTrace, sched.Policy, uin
 		nt = 2 + rng.Intn(3)
 	}
 	w := []int{10, 8, 2, 2, 2, 1, 1, 1, 1, 1, 1, 1, 1, 1, 1, 1, 1, 1, 1, 1}
+	longProgs := !small && rng.Bool(0.15)
+	if longProgs || rng.Bool(0.3) {
+		// swarm: a run that is not about the lazy tables but about overlap inside a few
+		// randomly chosen operations (shared scratch state shows only when two calls of
+		// the same operation overlap)
+		for i := range w {
+			w[i] = 0
+		}
+		for k := 0; k < 1+rng.Intn(3); k++ {
+			w[rng.Intn(len(w))] += 1 + rng.Intn(4)
+		}
+	}
+	if longProgs {
+		// few tasks, many operations each: state left behind by one call (pooled
+		// scratch, caches) meets overlapping later calls
+		nt = 2 + rng.Intn(3)
+	}
 	for i := 0; i < nt; i++ {
 		nops := 1 + rng.Intn(3)
 		if small {
 			nops = 1 + rng.Intn(2)
+		}
+		if longProgs {
+			nops = 5 + rng.Intn(8)
 		}
 		var prog []TOp
 		for j := 0; j < nops; j++ {
@@ -143,8 +163,13 @@ func genSchedTrace(base, idx uint64, small bool) (*SchedTrace, sched.Policy, uin
 				op.S = []int{rng.Intn(ns)}
 				op.P = []int{pick()}
 			case "MultiScalarMult", "VarTimeMultiScalarMult":
-				op.S = []int{rng.Intn(ns), rng.Intn(ns)}
-				op.P = []int{pick(), pick()}
+				// the term count varies from call to call (size-dependent paths, pooled scratch)
+				n := []int{0, 1, 2, 2, 2, 3, 5, 9, 13, 20}[rng.Intn(10)]
+				op.S, op.P = []int{}, []int{}
+				for k := 0; k < n; k++ {
+					op.S = append(op.S, rng.Intn(ns))
+					op.P = append(op.P, pick())
+				}
 			case "Add":
 				op.P = []int{pick(), pick()}
 			case "BytesRoundTrip", "MultByCofactor", "Encode", "CoordsRoundTrip":
@@ -171,7 +196,13 @@ func genSchedTrace(base, idx uint64, small bool) (*SchedTrace, sched.Policy, uin
 	}
 	// scheduling policy
 	var pol sched.Policy
-	switch rng.Intn(3) {
+	switch rng.Intn(4) {
+	case 1:
+		// switches only at synchronisation operations: coarse schedules in which a task
+		// runs undisturbed between the sync/atomic operations of the library
+		pol.PSync = []float64{0.5, 0.25}[rng.Intn(2)]
+		pol.PCold = []float64{0, 0, 1e-5}[rng.Intn(3)]
+		t.Policy = fmt.Sprintf("sync-focus(sync=%g,cold=%g)", pol.PSync, pol.PCold)
 	case 0:
 		d := 1 + rng.Intn(3)
 		for i := 0; i < d; i++ {
@@ -247,10 +278,18 @@ func runProgram(prog []TOp, sh *shared, out *[]string) {
 				recv.VarTimeDoubleScalarBaseMult(sc(op.S[0]), pt(op.P[0]), sc(op.S[1]))
 			case "ScalarMult":
 				recv.ScalarMult(sc(op.S[0]), pt(op.P[0]))
-			case "MultiScalarMult":
-				recv.MultiScalarMult([]*edwards25519.Scalar{sc(op.S[0]), sc(op.S[1])}, []*edwards25519.Point{pt(op.P[0]), pt(op.P[1])})
-			case "VarTimeMultiScalarMult":
-				recv.VarTimeMultiScalarMult([]*edwards25519.Scalar{sc(op.S[0]), sc(op.S[1])}, []*edwards25519.Point{pt(op.P[0]), pt(op.P[1])})
+			case "MultiScalarMult", "VarTimeMultiScalarMult":
+				var ss []*edwards25519.Scalar
+				var ps []*edwards25519.Point
+				for k := range op.S {
+					ss = append(ss, sc(op.S[k]))
+					ps = append(ps, pt(op.P[k]))
+				}
+				if op.Kind == "MultiScalarMult" {
+					recv.MultiScalarMult(ss, ps)
+				} else {
+					recv.VarTimeMultiScalarMult(ss, ps)
+				}
 			case "Add":
 				recv.Add(pt(op.P[0]), pt(op.P[1]))
 			case "MultByCofactor":
@@ -420,6 +459,7 @@ func cmdSched(args []string) {
 	tracePath := fs.String("trace", "", "replay this trace instead of generating")
 	small := fs.Bool("small", false, "smaller programs (race tier)")
 	keep := fs.Bool("keeptrace", false, "always attach the trace")
+	progFile := fs.String("programs", "", "debugging aid: JSON file with task programs that replace the generated ones (scheduling still generated)")
 	out := fs.String("out", "", "output file")
 	fs.Parse(args)
 	if err := hist.Init(); err != nil {
@@ -453,6 +493,17 @@ func cmdSched(args []string) {
 		sched.FirstOverride = t.First
 	} else {
 		t, pol, schedSeed = genSchedTrace(*seed, *idx, *small)
+		if *progFile != "" {
+			b, err := os.ReadFile(*progFile)
+			if err != nil {
+				fatal2("%v", err)
+			}
+			var progs [][]TOp
+			if err := json.Unmarshal(b, &progs); err != nil {
+				fatal2("bad programs file: %v", err)
+			}
+			t.Programs = progs
+		}
 	}
 	so := runSched(t, pol, schedSeed, replay)
 	so.Idx, so.Seed = t.RunIdx, t.Seed
@@ -510,7 +561,11 @@ func runSched(t *SchedTrace, pol sched.Policy, schedSeed uint64, replay [][]sche
 		fatal2("watchdog: the concurrent phase made no progress for 120 s (unsupported blocking construct?)")
 	}
 	if res.LogOverflow && replay == nil {
-		fatal2("decision log overflow")
+		// more context switches than the decision log holds: the run cannot be
+		// replayed, so it is discarded (counted), not judged
+		so.Stats["runs_discarded_decision_log_overflow"] = 1
+		so.Hash = "overflow"
+		return so
 	}
 	h := sha256.New()
 	for _, d := range res.Log {
@@ -664,7 +719,6 @@ func runSched(t *SchedTrace, pol sched.Policy, schedSeed uint64, replay [][]sche
 }
 
 var _ = strings.Join
-
 
 // cmdSiteCov runs history workloads with a counting hook at every instrumented
 // statement and reports which library statements were executed (diagnostic:
